@@ -359,8 +359,11 @@ func inputRun() error {
 		emit(ev{"ev": "Focus", "enabled": true, "focused": true, "evs": drain(s)})
 	}
 	// modes switched off (or narrowed) survive a Suspend/Resume cycle as they are: callbacks are honoured for the enabled ones only
-	for _, flags := range []int{0, 1} {
-		if flags == 0 {
+	for _, flags := range []int{0, 1, -1} {
+		if flags == -1 { // an explicit empty flag word enables nothing (only the call without arguments means "everything")
+			flags = 0
+			s.EnableMouse(tcell.MouseFlags(0))
+		} else if flags == 0 {
 			s.DisableMouse()
 		} else {
 			s.EnableMouse(tcell.MouseFlags(flags))
